@@ -170,7 +170,7 @@ def lean_axioms(theorems, module="YgmVerif"):
     """returns {theorem: (ok, axioms-or-error)} via `#print axioms`"""
     if not theorems:
         return {}
-    src = f"import {module}\n" + "".join(f"#print axioms {t}\n" for t in theorems)
+    src = "".join(f"import {m}\n" for m in ([module] if isinstance(module, str) else module)) + "".join(f"#print axioms {t}\n" for t in theorems)
     with tempfile.NamedTemporaryFile("w", suffix=".lean", delete=False, dir=BUILD) as f:
         f.write(src)
         path = f.name
@@ -215,7 +215,7 @@ def lean_obligations(pid, tier):
         hits += lean_source_audit(em)
     info["modules_audited"] = [os.path.relpath(p, LEAN) for p in module_closure(module)]
     info["source_audit"] = hits
-    ax = lean_axioms(theorems, module)
+    ax = lean_axioms(theorems, [module] + extra_modules)
     for t in theorems:
         good, detail = ax.get(t, (False, ["missing"]))
         if good and not hits:
